@@ -92,3 +92,73 @@ def model_files(m):
     for p, b in res[1]:
         out[p] = b.encode("latin-1").decode("utf-8", "replace")
     return res[0], out, (res[3] if res[0] == "ok" else [])
+
+
+def cli_tree_checks(which):
+    """Invocations of the real binary that touch SEVERAL files at once (shared by C05, C06, C07).
+    which = "format": `--format main.slt` on a tree whose root includes a same-stem sibling, one file twice and a nested file:
+                      every file keeps its meaning, a second run changes no byte, nothing is left behind.
+    which = "override": ONE `--override` invocation over two files, the first of which sets modes (sort mode, result mode, hash threshold)
+                      and includes a same-stem sibling, the second of which has passing multi-row queries in the engine's order:
+                      the second file is not touched (its records pass under ITS modes) and passes when run alone afterwards.
+    Returns a list of (clause, description, detail)."""
+    import os
+    import clirun
+    import vlib
+    out = []
+    sb = clirun.Sandbox("tree")
+    try:
+        if which == "format":
+            files = [["t/main.slt", "include main.prelude\n\nstatement ok\ncreate table t(v int)\n\ninclude reset.slt\n\nquery I rowsort\nselect v from t\n----\n1\n2\n\ninclude reset.slt\n\ninclude sub/*.slt\n"],
+                     ["t/main.prelude", "statement ok\nprelude one\n\nstatement ok\nprelude two\n"],
+                     ["t/reset.slt", "statement ok\ndelete from t\n\nstatement count 0\nvacuum\n"],
+                     ["t/sub/a.slt", "query II\nselect 1, 2\n----\n1 2\n"], ["t/sub/b.slt", "# only a comment\n"]]
+            sb.write_files(files)
+            def parse_all():
+                texts = [open(os.path.join(sb.dir, f[0])).read() for f in files]
+                return texts, vlib.run_impl("parse", [{"text": t} for t in texts])
+            before_t, before = parse_all()
+            r1 = sb.run(["--format", "t/main.slt"], scenario={"rules": []}, timeout=60, engine_ok=False)
+            mid_t, mid = parse_all()
+            r2 = sb.run(["--format", "t/main.slt"], scenario={"rules": []}, timeout=60, engine_ok=False)
+            end_t, _ = parse_all()
+            from props import C05
+            for f, b, m in zip(files, before, mid):
+                if m.get("parse", ["err"])[0] != "ok":
+                    out.append(("sound", "after `--format t/main.slt` the file %s no longer parses" % f[0], m.get("parse")))
+                elif C05.semantic(vlib.norm(m["parse"][1])) != C05.semantic(vlib.norm(b["parse"][1])):
+                    out.append(("sound", "after `--format t/main.slt` the file %s parses to a different script" % f[0],
+                                {"before": C05.semantic(vlib.norm(b["parse"][1]))[:8], "after": C05.semantic(vlib.norm(m["parse"][1]))[:8]}))
+            for f, a, b in zip(files, mid_t, end_t):
+                if a != b:
+                    out.append(("idem", "a second `--format t/main.slt` changes %s" % f[0], {"first": a[:300], "second": b[:300]}))
+            left = [os.path.join(dp, n) for dp, _, ns in os.walk(os.path.join(sb.dir, "t")) for n in ns if n.endswith(".temp")]
+            if left:
+                out.append(("debris", "temporary files left behind by `--format`", left))
+        else:
+            a = ("control sortmode rowsort\n\ncontrol resultmode valuewise\n\nhash-threshold 2\n\ninclude a_modes.inc\n\nquery I\nselect A_one\n----\n1\n")
+            inc = "statement ok\nselect A_inc\n"
+            b = "query I\nselect B_rows\n----\n3\n1\n2\n\nquery II\nselect B_pairs\n----\nb 2\na 1\n"
+            files = [["t/a_modes.slt", a], ["t/a_modes.inc", inc], ["t/b_plain.slt", b]]
+            rules = [{"match": "B_rows", "reply": {"result": [["3"], ["1"], ["2"]]}}, {"match": "B_pairs", "reply": {"result": [["b", "2"], ["a", "1"]]}}]
+            sb.write_files(files)
+            r = sb.run(["--override", "t/a_modes.slt", "t/b_plain.slt"], scenario={"rules": rules}, timeout=90)
+            after = {f[0]: open(os.path.join(sb.dir, f[0])).read() for f in files}
+            if after["t/b_plain.slt"].rstrip("\n") != b.rstrip("\n"):
+                out.append(("frame", "one `--override` over two files rewrote records of the second file although they pass under that file's own modes",
+                            {"before": b, "after": after["t/b_plain.slt"], "stdout": r["stdout"][-300:]}))
+            pi = vlib.run_impl("parse", [{"text": after["t/a_modes.inc"]}])[0]
+            if pi.get("parse", ["err"])[0] != "ok" or "A_inc" not in after["t/a_modes.inc"]:
+                out.append(("frame", "`--override` damaged the included file a_modes.inc (same stem as its includer)", after["t/a_modes.inc"][:300]))
+            r2 = sb.run(["t/b_plain.slt"], scenario={"rules": rules}, timeout=60)
+            if r2["rc"] != 0:
+                out.append(("fixpoint", "after the `--override` of both files the second file fails when it is run on its own", r2["stdout"][-400:]))
+            r3 = sb.run(["t/a_modes.slt"], scenario={"rules": rules}, timeout=60)
+            if r3["rc"] != 0:
+                out.append(("fixpoint", "after the `--override` the first file fails when it is run", r3["stdout"][-400:]))
+            left = [n for n in os.listdir(os.path.join(sb.dir, "t")) if n.endswith(".temp")]
+            if left:
+                out.append(("debris", "temporary files left behind by `--override`", left))
+    finally:
+        sb.close()
+    return out
